@@ -1,6 +1,7 @@
 package main
 
 import (
+	"bytes"
 	"errors"
 	"fmt"
 	"io"
@@ -9,6 +10,7 @@ import (
 	"strconv"
 	"sync"
 	"sync/atomic"
+	"syscall"
 	"time"
 
 	tea "github.com/charmbracelet/bubbletea"
@@ -55,16 +57,44 @@ type pOutput struct {
 	t0 time.Time
 	// one entry per Write call that carries painted text (not only control sequences): microseconds since t0, length
 	paints [][2]int64
+	// fault injection: the first `Times` writes containing Match fail (EAGAIN) or, with DelayUs, are slow
+	fault     *pOutFault
+	faultLeft int
 }
 
 func (o *pOutput) Write(p []byte) (int, error) {
 	o.mu.Lock()
+	if o.fault != nil && o.faultLeft > 0 && bytes.Contains(p, []byte(o.fault.Match)) {
+		o.faultLeft--
+		if o.fault.DelayUs > 0 {
+			// a slow terminal: the bytes arrive, but the Write call takes this long
+			o.mu.Unlock()
+			time.Sleep(time.Duration(o.fault.DelayUs) * time.Microsecond)
+			o.mu.Lock()
+		} else {
+			// a transient failure: nothing of this Write reaches the terminal
+			o.mu.Unlock()
+			return 0, syscall.EAGAIN
+		}
+	}
 	o.b = append(o.b, p...)
 	if len(o.paints) < 20000 && len(p) > 0 && !o.t0.IsZero() {
 		o.paints = append(o.paints, [2]int64{time.Since(o.t0).Microseconds(), int64(len(p))})
 	}
 	o.mu.Unlock()
 	return len(p), nil
+}
+
+func newPOutput(sc *pScenario) *pOutput {
+	o := &pOutput{t0: time.Now()}
+	if sc.OutFault != nil {
+		o.fault = sc.OutFault
+		o.faultLeft = sc.OutFault.Times
+		if o.faultLeft == 0 {
+			o.faultLeft = 1
+		}
+	}
+	return o
 }
 
 func (o *pOutput) Writes() [][2]int64 {
@@ -197,7 +227,7 @@ type harnessState struct {
 
 func newHarnessState(sc *pScenario) *harnessState {
 	h := &harnessState{
-		sc: sc, t0: time.Now(), out: &pOutput{t0: time.Now()}, ch: make(chan struct{}),
+		sc: sc, t0: time.Now(), out: newPOutput(sc), ch: make(chan struct{}),
 		paused: map[string]int{}, permits: map[string]int{}, open: map[string]bool{},
 		gates: map[string]chan struct{}{}, sendDone: make([]bool, len(sc.Senders)),
 		forever:    make(chan struct{}),
